@@ -24,6 +24,7 @@ ap.add_argument('-ops', default='')
 ap.add_argument('-sample', type=int, default=0)
 ap.add_argument('-verif', default=os.path.dirname(os.path.dirname(os.path.abspath(__file__))))
 ap.add_argument('-notests', action='store_true')
+ap.add_argument('-survivors-of', dest='survivors_of', default='', help='only re-run the mutants that survived in that results file (same file and id)')
 ap.add_argument('-tests-always', dest='tests_always', action='store_true', help='run the suite also for mutants a check reported')
 args = ap.parse_args()
 
@@ -54,6 +55,13 @@ for f in files:
         if args.ops and m['op'] not in args.ops.split(','):
             continue
         work.append(m)
+if args.survivors_of:
+    keep = set()
+    for l in open(args.survivors_of):
+        r = json.loads(l)
+        if r.get('status') == 'ok' and not r.get('fired') and r.get('tests') == 'pass':
+            keep.add((r['file'], r['id'], r['old']))
+    work = [m for m in work if (m['file'], m['id'], m['old']) in keep]
 done = set()
 if os.path.exists(args.o):
     for l in open(args.o):
